@@ -2,4 +2,4 @@ From Coq Require Import Extraction ExtrOcamlBasic.
 From SV Require Import Model.TokenSet Model.Accept.
 Extraction Language OCaml.
 Extraction "c12_model.ml" pool_model oracle_c12_pool scenario oracle_c12_acc oracle_c13_acc
-  run_cmds do_cmd recover_cmds sim_init observe sim_totals sim_closed ts_avail_N.
+  run_cmds do_cmd recover_cmds sim_init observe sim_totals sim_closed oracle_c13_conn ts_avail_N.
